@@ -583,8 +583,7 @@ Definition lib_constdiag_mul_matrix (a b : shape) : res shape :=
 
 (* DenseLinearOperator.__add__(other: DenseLinearOperator) = DenseLinearOperator(self.tensor + other.tensor) *)
 Definition lib_dense_add (a b : shape) : res shape := bind (lift (torch_broadcast a b)) (fun t0 => Ok t0).
-(* ZeroLinearOperator.__add__(other) = other *)
-Definition lib_zero_add (a b : shape) : res shape := Ok b.
+(* ZeroLinearOperator.__add__(other) = other: Part 4, pinned_zero_add (a pinned defect: not translated) *)
 (* ZeroLinearOperator.mul(other) = ZeroLinearOperator( *torch.broadcast_shapes(self.shape, other.shape)) *)
 Definition lib_zero_mul (a b : shape) : res shape := bind (lift (torch_broadcast a b)) (fun t0 => Ok t0).
 
